@@ -253,5 +253,16 @@ def fill(claim, na):
         "formats (.ids, .pssession, .xlsx/.ods), exact layout of instrument files beyond the columns used.",
         "DESIGN.md section 4, C06",
     )
-    na("C10", "statistical behaviour of a heuristic pipeline (noise tracking, drift margin) on noisy inputs: quantifies over "
-              "numerical outcomes of optimisers and random noise; no sound static argument bounds it")
+    claim(
+        "C10", "other",
+        "def-use provenance over _suggest_using_default / suggest_num_RC / perform_kramers_kronig_test: the suggested test is drawn from the list filtered with the returned limits",
+        "Decides one clause only: the suggested number of RC elements lies inside the limits it is reported with. The default "
+        "path binds (lower, upper) once from suggest_num_RC_limits, refuses an empty range, filters the tests with "
+        "lower <= num_RC <= upper, draws every candidate for the suggestion from the filtered list and returns those same "
+        "limits; suggest_num_RC routes the default settings there and returns the tuple unchanged; perform_kramers_kronig_test "
+        "returns one of the collected suggestions.",
+        "NOT decided (no sound static argument): that the estimated noise is of the order of the injected noise, that the fit "
+        "neither over- nor under-fits, and that drift-corrupted spectra give a much larger pseudo chi-squared: these quantify over "
+        "random noise and optimiser outcomes.",
+        "DESIGN.md section 4, C10",
+    )
